@@ -40,12 +40,20 @@ TRUSTED_BASE = [
     "tools/translate/gen_c06.py (Python ast -> Lean tables: latin_enc.ENCODING, glyphlist.glyphname2unicode, "
     "fontmetrics.FONT_METRICS widths + aliases) - every table is also dumped from the Lean driver and compared "
     "with the Python objects on every run",
+    "tools/translate/gen_c06.py code part (Gen/FontCode.lean): constants and tests of name2unicode, "
+    "raise_key_error_for_invalid_unicode, PDFFont.__init__, handle_undefined_char, add_cid2unichr, the if/elif chain of "
+    "get_font, and the check that PDFTrueTypeFont adds nothing to PDFType1Font",
+    "lean/PdfVerif/Model/Type1Header.lean on top of the C14/C01 tokeniser model (Lexer.specLex = buffered tokeniser, "
+    "proved in C14) - tied by whole fonts and by direct Type1FontHeaderParser runs on generated and damaged headers",
     "hand model lean/PdfVerif/Model/SimpleFont.lean of encodingdb.name2unicode, EncodingDB.get_encoding, "
     "PDFSimpleFont/PDFType1Font/PDFType3Font construction, to_unichr, char_width, FileUnicodeMap.add_cid2unichr, "
     "bfchar/bfrange expansion, UTF-16BE 'ignore' decoding, Type1FontHeaderParser at the level of its `put` pairs "
     "(correspondence-checked through real PDF files)",
     "the harness' PDF/CMap/Type 1 header writers (tools/harness/pdfwriter.py + this file)",
     "exact rationals stand for Python floats (advance compared with relative tolerance 1e-9)",
+    "independent data validation: latin_enc.ENCODING against Python's cp1252 / mac_roman / latin-1 / ascii codecs "
+    "(documented Annex D footnote exceptions), glyph list against unicodedata (letters, accented letters via NFC, "
+    "Greek, digits) and against the uniXXXX rule; this found the wrong WinAnsi 173 row of the pinned tree",
     "tools/harness/props/c06_refdata.json: reference copies of the Adobe Glyph List, the Annex D encoding table and "
     "the core-14 AFM widths (snapshot of the pinned tree) - an edit of a data table is reported against them",
 ]
@@ -54,8 +62,11 @@ ASSUMPTIONS = [
     "Encoding a name or a dictionary, Differences of integers/names/other direct objects, Widths of numbers, "
     "ToUnicode with bfchar/bfrange sections over 1-2 byte source codes and hex-string (or array of hex-string) "
     "targets, Type3 with FontBBox and a 6-number FontMatrix",
-    "embedded Type 1 programs are synthetic clear-text headers (`dup code /name put`, optional .notdef loop); "
-    "eexec parts, CFF and TrueType programs are not modelled",
+    "embedded Type 1 programs are synthetic clear-text headers, read from their BYTES by model and implementation "
+    "(dup/no dup, puts inside procedures, boolean / real keys, strings, comments, #xx escapes, all white-space forms, "
+    "other PostScript constructs in between, Length1 exact / beyond / cutting a token, damaged headers); eexec parts, "
+    "CFF and TrueType programs are not modelled; headers that are malformed on purpose are judged by the "
+    "model/implementation tie only",
     "glyph names with lower-case hexadecimal digits after uni/u (accepted by pdfminer, pinned by its unit tests, "
     "rejected by AGL) and names where only some underscore components are unknown (DESIGN section 7) are outside "
     "the judged domain; they are still part of the model/implementation tie",
@@ -80,6 +91,25 @@ STATEMENT_STATUS: Dict[str, str] = {
     "C06_width_precedence": "proved: advance = Widths entry, else standard-14 metric of the character, else "
                             "MissingWidth, times 1/1000 or FontMatrix[0] (judged cells)",
     "type3_scale": "proved: Type3 advance = (Widths entry or MissingWidth) x FontMatrix[0], no hypothesis on the text",
+    "agl_grammar_wellformed": "proved: the design's statement - on every name of the grammar name2unicode returns the "
+                              "non-empty AGL string (wellFormedName -> judgedName is a proved lemma)",
+    "tables_ok": "proved in the kernel for the REGENERATED glyph list / ENCODING rows (decide +kernel with a position "
+                 "certificate emitted by the translator); no longer a hypothesis checked by the driver",
+    "agl_grammar_pdfminer / C06_text_precedence_pdfminer / C06_width_precedence_pdfminer / modelFont_pdfminer":
+        "proved: the precedence theorems for exactly the tables and EncodingDB the driver runs, no table hypothesis left",
+    "subtype_dispatch": "proved (by evaluation of the regenerated if/elif chain of get_font): which Subtypes are simple "
+                        "fonts and which class they get",
+    "code_constants": "proved: the constants regenerated from the source (placeholder text, 1/1000, default encoding, "
+                      "surrogate/upper bounds, prefixes, group size, length bounds, separators) are those of the "
+                      "specification - an edit of one of them breaks this and the AGL proofs",
+    "C06_raw_precedence": "proved: fonts given with the BYTES of the embedded Type 1 program (tokeniser + "
+                          "Type1FontHeaderParser stack machine + literal_name decoding) - construction succeeds and "
+                          "text/advance are the specified ones whenever the header can be read",
+    "header_ignored": "proved: the FontFile bytes have no influence unless the font is non-Type3, non-standard-14 and "
+                      "has no Encoding entry",
+    "exampleHeader_puts / put_underflow_raises": "proved by kernel evaluation of the tokeniser model on concrete headers",
+    "getFont_transparent / font_cache_transparent": "proved: PDFResourceManager.get_font with or without caching returns "
+                                                    "for every request sequence exactly the freshly constructed fonts",
 }
 
 CLASSIFIERS = {
@@ -87,6 +117,109 @@ CLASSIFIERS = {
 }
 
 PLACEHOLDER = "(cid:%d)"
+
+
+# Inputs that touch state of the implementation which outlives one call (EncodingDB's class-level tables, the
+# resource manager's font cache), in the order they were evaluated in this process.
+HISTORY: List[Dict[str, Any]] = []
+
+
+def standalone_fails(inputs: List[Dict[str, Any]]) -> bool:
+    """Run the prelude (all but the last input) on the implementation without judging, then judge the last
+    input against the specification.  Used in a FRESH process to make a failure self-contained."""
+    for inp in inputs[:-1]:
+        try:
+            if inp.get("op") == "enc":
+                impl_get_encoding(inp["base"], diff_from_json(inp["differences"]))
+            elif inp.get("op") == "font":
+                impl_fonts([inp["font"]])
+        except Exception:  # noqa: BLE001
+            pass
+    inp = inputs[-1]
+    op = inp.get("op")
+    if op == "enc":
+        diff = diff_from_json(inp["differences"])
+        codes = [inp["code"]] if "code" in inp else range(256)
+        return any(not enc_cell_ok(inp["base"], diff, c) for c in codes)
+    if op == "font":
+        return font_first_bad(inp["font"], impl_fonts(inp.get("doc", []) + [inp["font"]])[-1]) is not None
+    if op == "table-indep":
+        only = (inp["table"].replace("codec-impl", "codec"), inp["key"])
+        return any(exp != got for _, _, exp, got in independent_checks(only))
+    return True
+
+
+def fails_in_fresh_process(inputs: List[Dict[str, Any]]) -> Optional[bool]:
+    import subprocess
+    import sys as _sys
+    code = ("import sys, json; sys.path.insert(0, %r); from harness.props import c06; "
+            "print('FAILS' if c06.standalone_fails(json.load(sys.stdin)) else 'PASSES')" % C.TOOLS)
+    try:
+        p = subprocess.run([_sys.executable, "-c", code], input=json.dumps(inputs).encode(), stdout=subprocess.PIPE,
+                           stderr=subprocess.DEVNULL, timeout=300)
+    except Exception:  # noqa: BLE001
+        return None
+    out = p.stdout.decode("utf-8", "replace")
+    return True if "FAILS" in out else False if "PASSES" in out else None
+
+
+def isolate(f: C.Failure, upto: int) -> bool:
+    """If the failing input does not fail on its own in a fresh process, the failure depends on what the
+    implementation was asked before: find a short prelude from this run's history that reproduces it and store
+    it with the input, so that the replay file is self-contained.  True = the stored input reproduces."""
+    inp = f.input
+    if not isinstance(inp, dict) or inp.get("op") not in ("enc", "font", "table-indep"):
+        return True
+    alone = fails_in_fresh_process([inp])
+    if alone is not False:
+        return True
+    hist = HISTORY[:upto]
+    if not hist or fails_in_fresh_process(hist + [inp]) is not True:
+        f.tags["state_dependent"] = "not reproduced from this run's history"
+        f.what += " [seen only inside this run]"
+        return False
+    lo, hi = 1, len(hist)          # smallest prefix length that reproduces
+    while lo < hi:
+        mid = (lo + hi) // 2
+        if fails_in_fresh_process(hist[:mid] + [inp]) is True:
+            hi = mid
+        else:
+            lo = mid + 1
+    prelude = hist[:lo]
+    if fails_in_fresh_process([prelude[-1], inp]) is True:
+        prelude = [prelude[-1]]
+    inp["prelude"] = prelude
+    f.tags["state_dependent"] = "fails only after %d earlier input(s)" % len(prelude)
+    f.what += " [depends on earlier calls: state carried across calls]"
+    return True
+
+
+_ISO_DONE: Dict[str, bool] = {}
+_ISO_SUFFIX: Dict[str, str] = {}
+_ISO_TRIES = [0]
+
+
+def cfail(ctx: C.Ctx, f: C.Failure) -> None:
+    """ctx.fail with a cap per kind of failure, so that one noisy kind cannot crowd out the others; for each
+    kind, failures are checked in a fresh process until one is self-contained (see `isolate`)."""
+    base = f.what
+    k = sum(1 for g in ctx.failures if g.what.split(" [")[0] == base)
+    if k >= 20:
+        return
+    if not _ISO_DONE.get(base) and _ISO_TRIES[0] < 12:
+        _ISO_TRIES[0] += 1
+        _ISO_DONE[base] = isolate(f, len(HISTORY))
+        if _ISO_DONE[base]:
+            # make sure this self-contained failure is the one reported for its kind
+            _ISO_SUFFIX[base] = f.what[len(base):]
+            for g in ctx.failures:
+                if g.what == base:
+                    g.what = f.what
+            ctx.failures.insert(0, f)
+            return
+    f.what = base + _ISO_SUFFIX.get(base, "")
+    ctx.fail(f)
+
 
 # ---------------------------------------------------------------------------------------------
 # data (read from the implementation under test as *data*; the tables are tied to Lean separately)
@@ -326,11 +459,9 @@ def font_spec_eval(fs: Dict[str, Any]) -> List[Tuple[Optional[str], Optional[F]]
         else:
             if builtin is not None:
                 nm = None
-                for (c, h) in builtin["puts"]:
+                for (c, tok) in ff_intent(builtin):
                     if c == code:
-                        nm = dec_name(h)
-                if builtin.get("notdef_loop") and nm is None:
-                    nm = ("s", ".notdef")
+                        nm = tok
             else:
                 nm, _ = spec_code_name(encname, diff, code)
             if nm is None:
@@ -414,8 +545,8 @@ def font_line(fs: Dict[str, Any]) -> str:
         if ff is None:
             ws += ["F", "none"]
         else:
-            ws += ["F", "1" if ff.get("notdef_loop") else "0", str(len(ff["puts"]))]
-            ws += ["%d:%s" % (c, name_arg(dec_name(h))) for c, h in ff["puts"]]
+            data_, l1 = type1_header(ff)
+            ws += ["F", str(l1), C.hx(data_)]
     if fs["fm"] is None:
         ws += ["M", "none"]
     else:
@@ -488,17 +619,91 @@ def cmap_bytes(entries) -> bytes:
     return b"".join(out)
 
 
+T1_SEPS = [b" ", b"\n", b"\t", b"\r\n", b"  ", b"\x0c", b" \n "]
+T1_EXTRAS = [b"/FontBBox {0 -200 1000 800} readonly def\n",
+             b"/Private 5 dict dup begin /BlueValues [-10 0 500 510] def end\n",
+             b"(put \\) put) pop\n", b"<48656C6C6F> pop\n", b"0.001 0 0 0.001 0 0 6 array astore pop\n",
+             b"<< /A 1 /B [1 2] >> pop\n", b"/put /notakeyword def\n", b"[ 1 2 3 ] pop\n", b"/PaintType 0 def\n"]
+
+
+def ff_entry_kind(e) -> str:
+    return e[2] if len(e) > 2 else "dup"
+
+
+def ff_tie_only(ff) -> bool:
+    """Headers that are malformed on purpose (or cut inside a token by Length1): model/implementation tie only."""
+    return bool(ff.get("malformed")) or ff.get("l1") == "cut"
+
+
+def ff_intent(ff) -> List[Tuple[int, Any]]:
+    """What the header MEANS (independent of any tokeniser): the (code, name) assignments in order.
+    The `.notdef` loop is scanned by pdfminer as one put under key 1 (harmless: `.notdef` has no value)."""
+    out: List[Tuple[int, Any]] = []
+    if ff.get("notdef_loop"):
+        out.append((1, ("s", ".notdef")))
+    for e in ff["puts"]:
+        k = ff_entry_kind(e)
+        if k in ("dup", "nodup", "proc"):
+            out.append((e[0], dec_name(e[1])))
+        elif k == "true":
+            out.append((1, dec_name(e[1])))
+        elif k == "false":
+            out.append((0, dec_name(e[1])))
+        # "real" (a real-number key) and "str" (a string instead of a name) assign nothing
+    if ff.get("tail") and ff.get("l1") == "beyond":
+        out += [(65, ("s", "Z")), (66, ("s", "Y"))]
+    return out
+
+
+def t1_name(h: str, escape: bool) -> bytes:
+    b = bytes.fromhex(h)
+    n = W.ser_name(b)
+    if escape and b and b[0] in W.REGULAR:
+        n = b"/#%02X" % b[0] + W.ser_name(b[1:])[1:]
+    return n
+
+
 def type1_header(ff) -> Tuple[bytes, int]:
-    out = [b"%!PS-AdobeFont-1.0: Synth 001.001\n11 dict begin\n/FontName /Synth def\n/Encoding 256 array\n"]
+    sep = T1_SEPS[ff.get("sep", 0) % len(T1_SEPS)]
+    esc = bool(ff.get("escape"))
+    out = [b"%!PS-AdobeFont-1.0: Synth 001.001\n"]
+    if ff.get("malformed") == "put-underflow":
+        out.append(b"put\n")
+    out.append(b"11 dict begin\n/FontName /Synth def\n/Encoding 256 array\n")
     if ff.get("notdef_loop"):
         out.append(b"0 1 255 {1 index exch /.notdef put} for\n")
-    for c, h in ff["puts"]:
-        out.append(b"dup %d %s put\n" % (c, W.ser_name(bytes.fromhex(h))))
+    for i, e in enumerate(ff["puts"]):
+        k = ff_entry_kind(e)
+        nm = t1_name(e[1], esc and i % 2 == 0)
+        if k == "dup":
+            toks = [b"dup", b"%d" % e[0], nm, b"put"]
+        elif k == "nodup":
+            toks = [b"%d" % e[0], nm, b"put"]
+        elif k == "proc":
+            toks = [b"{", b"%d" % e[0], nm, b"put", b"}", b"pop"]
+        elif k in ("true", "false"):
+            toks = [b"dup", k.encode(), nm, b"put"]
+        elif k == "real":
+            toks = [b"dup", b"%d.0" % e[0], nm, b"put"]
+        else:  # "str"
+            toks = [b"dup", b"%d" % e[0], W.ser_string(bytes.fromhex(e[1])), b"put"]
+        out.append(sep.join(toks) + b"\n")
+        if ff.get("comments") and i % 3 == 0:
+            out.append(b"% dup 70 /Z put\n")
+        if ff.get("extras") and i % 4 == 1:
+            out.append(T1_EXTRAS[(i + ff.get("sep", 0)) % len(T1_EXTRAS)])
+    if ff.get("malformed") == "odd-dict":
+        out.append(b"<< /A >>\n")
     out.append(b"readonly def\ncurrentdict end\ncurrentfile eexec\n")
     head = b"".join(out)
     # bytes after Length1 must not be read as part of the clear-text header
     tail = b"dup 65 /Z put\ndup 66 /Y put\n" if ff.get("tail") else b""
-    return head + tail, len(head)
+    l1 = len(head)
+    if ff.get("l1") == "beyond":
+        l1 = len(head) + len(tail) + 10
+    elif ff.get("l1") == "cut":
+        l1 = max(0, len(head) - 25)
+    return head + tail, l1
 
 
 def font_objects(fs: Dict[str, Any], n0: int) -> Tuple[Dict[int, Any], int]:
@@ -571,44 +776,67 @@ def font_objects(fs: Dict[str, Any], n0: int) -> Tuple[Dict[int, Any], int]:
 ALL_CODES = b"BT /F1 1 Tf <" + bytes(range(256)).hex().encode() + b"> Tj ET"
 
 
-def fonts_pdf(fss: List[Dict[str, Any]]) -> bytes:
+def fonts_pdf(fss: List[Dict[str, Any]]) -> Tuple[bytes, List[int]]:
+    """One page per font, followed by a second visit of every third font (same font OBJECT again, in reverse
+    order), so that PDFResourceManager's font cache is exercised.  Returns (pdf, font index of each page)."""
     objs: Dict[int, Any] = {1: {"Type": "Catalog", "Pages": W.Ref(2)}, 3: W.Stream({}, ALL_CODES)}
     kids = []
+    order: List[int] = []
+    frefs: List[int] = []
     n = 10
-    for fs in fss:
+    for i, fs in enumerate(fss):
         fo, fref = font_objects(fs, n)
         objs.update(fo)
+        frefs.append(fref)
         n = fref + 1
+    for i in list(range(len(fss))) + [i for i in reversed(range(len(fss))) if i % 3 == 0]:
         objs[n] = {"Type": "Page", "Parent": W.Ref(2), "Contents": W.Ref(3),
-                   "Resources": {"Font": {"F1": W.Ref(fref)}}, "MediaBox": [0, 0, 612, 792]}
+                   "Resources": {"Font": {"F1": W.Ref(frefs[i])}}, "MediaBox": [0, 0, 612, 792]}
         kids.append(W.Ref(n))
+        order.append(i)
         n += 1
     objs[2] = {"Type": "Pages", "Kids": kids, "Count": len(kids)}
-    return W.build_pdf(objs, 1)
+    return W.build_pdf(objs, 1), order
 
 
-def impl_fonts(fss: List[Dict[str, Any]]) -> List[Any]:
-    """Per font: list of 256 (text, adv) read from LTChar, or 'EXC:Type'."""
+def _impl_fonts_once(pdf: bytes, order: List[int], n: int, caching: bool) -> List[Any]:
     from pdfminer.converter import PDFPageAggregator
     from pdfminer.layout import LTChar
     from pdfminer.pdfdocument import PDFDocument
     from pdfminer.pdfinterp import PDFPageInterpreter, PDFResourceManager
     from pdfminer.pdfpage import PDFPage
     from pdfminer.pdfparser import PDFParser
-    doc = PDFDocument(PDFParser(io.BytesIO(fonts_pdf(fss))))
-    out: List[Any] = []
-    for page in PDFPage.create_pages(doc):
+    doc = PDFDocument(PDFParser(io.BytesIO(pdf)))
+    rm = PDFResourceManager(caching=caching)
+    dev = PDFPageAggregator(rm, laparams=None)
+    interp = PDFPageInterpreter(rm, dev)
+    out: List[Any] = [None] * n
+    for k, page in enumerate(PDFPage.create_pages(doc)):
+        i = order[k]
         try:
-            rm = PDFResourceManager(caching=True)
-            dev = PDFPageAggregator(rm, laparams=None)
-            PDFPageInterpreter(rm, dev).process_page(page)
-            chars = [(c.get_text(), c.adv) for c in dev.get_result() if isinstance(c, LTChar)]
-            out.append(chars)
+            interp.process_page(page)
+            res: Any = [(c.get_text(), c.adv) for c in dev.get_result() if isinstance(c, LTChar)]
         except Exception as e:  # noqa: BLE001
-            out.append("EXC:" + type(e).__name__)
-    while len(out) < len(fss):
-        out.append("EXC:missing-page")
-    return out
+            res = "EXC:" + type(e).__name__
+        if out[i] is None:
+            out[i] = res
+        elif out[i] != res:
+            out[i] = "DIFF:revisit"
+    return [o if o is not None else "EXC:missing-page" for o in out]
+
+
+def impl_fonts(fss: List[Dict[str, Any]]) -> List[Any]:
+    """Per font: list of 256 (text, adv) read from LTChar, or 'EXC:Type', or 'DIFF:revisit' when a later use of
+    the same font object (or the run without font cache) gives other glyphs.  One resource manager / device /
+    interpreter per DOCUMENT, as in normal use.  Large documents are read with the font cache on or off
+    depending on their content (deterministic), small ones (replays, shrinking) both ways."""
+    import hashlib
+    pdf, order = fonts_pdf(fss)
+    if len(fss) <= 8:
+        a = _impl_fonts_once(pdf, order, len(fss), True)
+        b = _impl_fonts_once(pdf, order, len(fss), False)
+        return [x if x == y else "DIFF:revisit" for x, y in zip(a, b)]
+    return _impl_fonts_once(pdf, order, len(fss), hashlib.sha1(pdf).digest()[0] % 2 == 0)
 
 
 # ---------------------------------------------------------------------------------------------
@@ -963,7 +1191,24 @@ def gen_font(rng, force: Optional[str] = None) -> Tuple[Dict[str, Any], List[str
                 c0 = rng.choice(puts)[0]
                 puts.append([c0, gen_component(rng, rng.choice(["unknown", "list"]))[0].encode().hex()])
                 kinds.append("ff:reassign")
-            desc["ff"] = {"puts": puts, "notdef_loop": rng.random() < 0.5, "tail": rng.random() < 0.5}
+            for e in puts:
+                if rng.random() < 0.25:
+                    e.append(rng.choice(["nodup", "proc", "true", "false", "real", "str", "nodup", "proc"]))
+                    kinds.append("ff:entry-" + e[2])
+            ff: Dict[str, Any] = {"puts": puts, "notdef_loop": rng.random() < 0.5, "tail": rng.random() < 0.5,
+                                  "sep": rng.randint(0, len(T1_SEPS) - 1), "comments": rng.random() < 0.4,
+                                  "extras": rng.random() < 0.4, "escape": rng.random() < 0.3}
+            r1 = rng.random()
+            if r1 < 0.12:
+                ff["l1"] = "beyond"
+                kinds.append("ff:length1-beyond")
+            elif r1 < 0.18:
+                ff["l1"] = "cut"
+                kinds.append("ff:length1-cut")
+            if rng.random() < 0.08:
+                ff["malformed"] = rng.choice(["put-underflow", "odd-dict"])
+                kinds.append("ff:malformed-" + ff["malformed"])
+            desc["ff"] = ff
             kinds.append("ff:fontfile" + (":used" if fs["enc"] is None and not std14 else ":ignored"))
         fs["desc"] = desc
     else:
@@ -1015,7 +1260,7 @@ def check_names(ctx: C.Ctx, names: List[Tuple[Any, List[str]]], label: str = "")
         if dom:
             ctx.branch("name:judged")
             if got != exp:
-                ctx.fail(C.Failure(
+                cfail(ctx, C.Failure(
                     "name2unicode differs from the Adobe Glyph List algorithm",
                     {"op": "name", "name": name_arg(tok)}, exp, impl,
                     {"op": "name", "kinds": kinds, "raised": impl.startswith("EXC"),
@@ -1058,6 +1303,7 @@ def check_encodings(ctx: C.Ctx, cases: List[Tuple[str, List[Any], List[str]]]) -
     meta: List[Any] = []
     for encname, diff, kinds in cases:
         impl = impl_get_encoding(encname, diff)
+        HISTORY.append({"op": "enc", "base": encname, "differences": diff_to_json(diff)})
         ctx.case(("enc", encname, diff), bool(diff), sample={"base": encname, "differences": diff_to_json(diff)[:12]},
                  branch="enc:" + (encname if encname in ENC_COL else "other-name"))
         for k in kinds:
@@ -1078,7 +1324,7 @@ def check_encodings(ctx: C.Ctx, cases: List[Tuple[str, List[Any], List[str]]]) -
             t = agl_spec(s)
             exp_cells.append(cps(t) if t != "" else "~")
         if impl.startswith("EXC"):
-            ctx.fail(C.Failure("EncodingDB.get_encoding raised", {"op": "enc", "base": encname,
+            cfail(ctx, C.Failure("EncodingDB.get_encoding raised", {"op": "enc", "base": encname,
                                                                   "differences": diff_to_json(diff)},
                                "a table", impl, {"op": "enc", "raised": True}))
         else:
@@ -1125,7 +1371,7 @@ def report_enc_failure(ctx: C.Ctx, encname: str, diff: List[Any], code: int, exp
     s = name_of_tok(nm) if nm is not None else None
     tags = {"op": "enc", "code": code, "from_differences": from_diff,
             "spec_undefined": nm is None or agl_spec(s) == "", "got_defined": got != "~"}
-    ctx.fail(C.Failure("EncodingDB.get_encoding: a code does not get the character of its glyph name "
+    cfail(ctx, C.Failure("EncodingDB.get_encoding: a code does not get the character of its glyph name "
                        "(last Differences assignment, else base encoding)",
                        {"op": "enc", "base": encname, "differences": diff_to_json(small), "code": code},
                        exp, got, tags))
@@ -1169,12 +1415,26 @@ def font_failure_tags(fs: Dict[str, Any], code: int, what: str, kinds: List[str]
             "skewed": bool(fs["fm"]) and fs["fm"][2] != "0", "kinds": sorted(set(kinds))}
 
 
+def font_tie_only(fs: Dict[str, Any]) -> bool:
+    """Fonts whose embedded header is malformed on purpose and is actually read: no property oracle."""
+    d = data()
+    desc = fs.get("desc")
+    if fs["subtype"] == "Type3" or fs["enc"] is not None or not desc or not desc.get("ff"):
+        return False
+    bf = bytes.fromhex(fs["basefont"]).decode("utf-8", "replace") if fs.get("basefont") is not None else "unknown"
+    return bf not in d["fm"] and ff_tie_only(desc["ff"])
+
+
 def font_first_bad(fs: Dict[str, Any], got: Any) -> Optional[Tuple[int, str, Any, Any]]:
     """First code where the implementation's (text, adv) breaks the property; None when fine."""
+    if got == "DIFF:revisit":
+        return (-1, "cache", "the same glyphs as at the first use", got)
     if isinstance(got, str):
-        return (-1, "exception", "256 glyphs", got)
+        return None if font_tie_only(fs) else (-1, "exception", "256 glyphs", got)
     if len(got) != 256:
         return (-1, "count", 256, len(got))
+    if font_tie_only(fs):
+        return None
     exp = font_spec_eval(fs)
     for code in range(256):
         et, ew = exp[code]
@@ -1244,7 +1504,8 @@ def shrink_font(fs: Dict[str, Any], kind: str) -> Dict[str, Any]:
 WHAT = {"text": "simple font: text of a code is not ToUnicode entry / AGL value of its glyph name / (cid:N)",
         "width": "simple font: advance of a code is not Widths entry / standard-14 metric / MissingWidth (x scale)",
         "exception": "simple font: building or using the font raised",
-        "count": "simple font: not one glyph per shown code"}
+        "count": "simple font: not one glyph per shown code",
+        "cache": "simple font: the same font object gives different glyphs when it is used again (font cache)"}
 
 
 def check_fonts(ctx: C.Ctx, fonts: List[Tuple[Dict[str, Any], List[str]]], chunk: int = 40) -> None:
@@ -1255,6 +1516,8 @@ def check_fonts(ctx: C.Ctx, fonts: List[Tuple[Dict[str, Any], List[str]]], chunk
             ctx.notes.append("font cases cut short by the time budget")
             break
         part = fonts[i:i + chunk]
+        for fs, _ in part:
+            HISTORY.append({"op": "font", "font": fs})
         try:
             res = impl_fonts([fs for fs, _ in part])
         except Exception as e:  # noqa: BLE001  - the document as a whole failed: evaluate one by one
@@ -1274,12 +1537,33 @@ def check_fonts(ctx: C.Ctx, fonts: List[Tuple[Dict[str, Any], List[str]]], chunk
             bad = font_first_bad(fs, got)
             if bad is not None:
                 code, kind, exp, g = bad
-                small = shrink_font(fs, kind)
-                b2 = font_first_bad(small, impl_fonts([small])[0])
-                if b2 is None or b2[1] != kind:
+                inp: Dict[str, Any]
+                alone = font_first_bad(fs, impl_fonts([fs])[0])
+                if alone is not None and alone[1] == kind:
+                    small = shrink_font(fs, kind)
+                    b2 = font_first_bad(small, impl_fonts([small])[0])
+                    if b2 is None or b2[1] != kind:
+                        small, b2 = fs, bad
+                    inp = {"op": "font", "font": small, "code": b2[0]}
+                else:
+                    # fails only together with other fonts of the same document (shared resource manager):
+                    # keep the smallest set of the document's other fonts that reproduces it
+                    others = [f2 for f2, _ in part if f2 is not fs]
+
+                    def with_doc(sub):
+                        try:
+                            r = font_first_bad(fs, impl_fonts(list(sub) + [fs])[-1])
+                        except Exception:  # noqa: BLE001
+                            return False
+                        return r is not None and r[1] == kind
                     small, b2 = fs, bad
-                ctx.fail(C.Failure(WHAT[kind], {"op": "font", "font": small, "code": b2[0]}, b2[2], b2[3],
-                                   font_failure_tags(small, b2[0], kind, kinds)))
+                    inp = {"op": "font", "font": fs, "code": bad[0]}
+                    suffix = " [seen only inside this run]"
+                    if others and with_doc(others):
+                        inp["doc"] = C.ddmin(others, with_doc, 60) if len(others) > 1 else others
+                        suffix = " [together with other fonts of the document]"
+                cfail(ctx, C.Failure(WHAT[kind] + (suffix if alone is None or alone[1] != kind else ""),
+                                     inp, b2[2], b2[3], font_failure_tags(small, b2[0], kind, kinds)))
             lines.append("font " + font_line(fs))
             meta.append(("font", fs, got))
             lines.append("fontspec " + font_line(fs))
@@ -1297,8 +1581,11 @@ def compare_fonts_with_driver(ctx: C.Ctx, lines: List[str], meta: List[Any]) -> 
             model = parse_font_reply(m_out)
             if op == "font":
                 if isinstance(got, str) or isinstance(model, str):
-                    if not (isinstance(got, str) and isinstance(model, str) and model.startswith("E")):
+                    if not (isinstance(got, str) and isinstance(model, str) and model.startswith("E ")
+                            and got == "EXC:" + model[2:]):
                         ctx.disagree("font", {"font": fs}, got if isinstance(got, str) else "256 glyphs", m_out[:120])
+                    else:
+                        ctx.branch("font:exception-agreed:" + model[2:])
                     continue
                 for code in range(min(len(got), 256)):
                     gt, gw = got[code]
@@ -1308,6 +1595,8 @@ def compare_fonts_with_driver(ctx: C.Ctx, lines: List[str], meta: List[Any]) -> 
                                      "%s|%s" % (cps(mt), C.frac_str(mw)))
                         break
             else:
+                if font_tie_only(fs):
+                    continue
                 mine = font_spec_eval(fs)
                 if isinstance(model, str):
                     ctx.disagree("spec-twin:font", {"font": fs}, "256 cells", m_out[:120])
@@ -1329,9 +1618,92 @@ def run_fonts(ctx: C.Ctx) -> None:
                   "tu": None, "fc": None, "widths": None, "desc": None,
                   "fm": ["1/1000", "0", "0", "1/1000", "0", "0"] if sub == "Type3" else None}
             fonts.append((fs, ["font:plain"]))
-    for _ in range(ctx.n(900, 12000)):
+    for _ in range(ctx.n(750, 10000)):
         fonts.append(gen_font(rng))
+    # fonts whose built-in encoding (the bytes of the embedded Type 1 header) is what decides the text
+    n_builtin = 0
+    while n_builtin < ctx.n(200, 3000):
+        fs, kinds = gen_font(rng, force=rng.choice(["Type1", "TrueType", "MMType1", "absent"]))
+        if not (fs["desc"] and fs["desc"].get("ff")):
+            continue
+        fs["enc"] = None
+        fs.pop("emptydiff", None)
+        fs.pop("enc_indirect", None)
+        if fs["basefont"] is not None and bytes.fromhex(fs["basefont"]).decode() in data()["fm"]:
+            fs["basefont"] = rng.choice(OTHER_BASEFONTS).encode().hex()
+        kinds = [k for k in kinds if not k.startswith(("enc:", "diff:", "font:std14"))] + ["ff:builtin-batch"]
+        fonts.append((fs, kinds))
+        n_builtin += 1
     check_fonts(ctx, fonts)
+
+
+def impl_t1puts(data_: bytes) -> str:
+    """The (cid, name) results of Type1FontHeaderParser's `put` keywords, before the name lookup."""
+    from pdfminer.pdffont import Type1FontHeaderParser
+    from pdfminer.psparser import PSEOF
+    p = Type1FontHeaderParser(io.BytesIO(data_))
+    res = []
+    try:
+        while True:
+            try:
+                (cid, name) = p.nextobject()
+            except PSEOF:
+                break
+            res.append((int(cid), name))
+    except Exception as e:  # noqa: BLE001
+        return "E " + type(e).__name__
+    out = []
+    for cid, name in res:
+        try:
+            name.encode("utf-8")
+            ok = not (name.startswith("b'") or name.startswith('b"'))
+        except UnicodeEncodeError:
+            ok = False
+        out.append("%d:%s" % (cid, name_arg(("s", name)) if ok else "b"))
+    return " ".join(out) or "-"
+
+
+def run_t1puts(ctx: C.Ctx) -> None:
+    """Tokeniser + stack-machine path over header BYTES: generated headers and byte-level damage of them."""
+    rng = ctx.rng
+    lines, mine = [], []
+    for i in range(ctx.n(300, 6000)):
+        fs, _ = gen_font(rng, force="Type1")
+        while not (fs["desc"] and fs["desc"].get("ff")):
+            fs, _ = gen_font(rng, force="Type1")
+        ff = fs["desc"]["ff"]
+        data_, l1 = type1_header(ff)
+        data_ = data_[:l1]
+        kind = "asis"
+        if i % 3 == 1 and data_:
+            # damage: drop / duplicate / replace a few bytes (unbalanced brackets, split tokens, stray `put`s)
+            b = bytearray(data_)
+            for _ in range(rng.randint(1, 4)):
+                pos = rng.randrange(len(b))
+                r = rng.random()
+                if r < 0.4:
+                    del b[pos]
+                elif r < 0.7:
+                    b[pos:pos] = rng.choice([b"}", b"{", b"]", b"[", b">>", b"<<", b" put ", b"(", b")", b"%", b"/", b"<", b">"])
+                else:
+                    b[pos] = rng.choice(b" \n{}[]()<>/%#0aZ")
+                if not b:
+                    break
+            data_ = bytes(b)
+            kind = "damaged"
+        elif i % 3 == 2:
+            kind = "names-with-bytes"
+            data_ = data_.replace(b"/Synth", rng.choice([b"/\xff\xfe", b"/A#FFB", b"/caf\xc3\xa9", b"/#41#42"]))
+            data_ += b"dup 7 " + rng.choice([b"/\xff", b"/x#C3#A9", b"/#e9", b"/\xf0\x9f\x98\x80", b"/\xed\xa0\x80"]) + b" put\n"
+        impl = impl_t1puts(data_)
+        ctx.case(("t1puts", data_), True, branch="t1puts:" + kind)
+        ctx.branch("t1puts->" + (impl if impl.startswith("E ") else "ok"))
+        lines.append("t1puts " + C.hx(data_))
+        mine.append(impl)
+    if ctx.driver is not None:
+        for ln, a, b in zip(lines, mine, ctx.driver.ask(lines)):
+            if a != b:
+                ctx.disagree("t1puts", {"header": ln[7:][:400]}, a[:200], b[:200])
 
 
 def run_utf16(ctx: C.Ctx) -> None:
@@ -1360,7 +1732,7 @@ def run_refdata(ctx: C.Ctx, only: Optional[Tuple[str, str]] = None) -> None:
     d = data()
 
     def bad(table, key, exp, got):
-        ctx.fail(C.Failure("font data table differs from the reference copy of the document it transcribes",
+        cfail(ctx, C.Failure("font data table differs from the reference copy of the document it transcribes",
                            {"op": "table", "table": table, "key": key}, exp, got, {"op": "table", "table": table}))
 
     gl = {k: [ord(c) for c in v] for k, v in d["gl"].items()}
@@ -1389,6 +1761,105 @@ def run_refdata(ctx: C.Ctx, only: Optional[Tuple[str, str]] = None) -> None:
                 bad("metrics", f + "/" + k, b.get(k), a.get(k))
 
 
+# --- independent validation of the data tables (no copy of pdfminer's data involved) -----------------------------
+
+# codes where ISO 32000-1 Annex D deliberately differs from the platform codec (footnotes of Table D.2)
+CODEC_EXCEPTIONS = {
+    ("WinAnsiEncoding", 0xA0): " ",      # "SPACE shall also be encoded as 240 (octal) in WinAnsiEncoding"
+    ("WinAnsiEncoding", 0xAD): "-",      # "HYPHEN shall also be encoded as 255 (octal) in WinAnsiEncoding"
+    ("MacRomanEncoding", 0xCA): " ",     # "SPACE shall also be encoded as 312 (octal) in MacRomanEncoding"
+    ("MacRomanEncoding", 0xDB): "\u00a4",  # currency (Python's mac_roman is the post-1998 table with the Euro sign)
+    ("StandardEncoding", 0x27): "\u2019",  # quoteright
+    ("StandardEncoding", 0x60): "\u2018",  # quoteleft
+}
+# characters of Mac OS Roman that are not in the PDF Latin character set (absent from PDF's MacRomanEncoding)
+MAC_ABSENT = {0xAD, 0xB0, 0xB2, 0xB3, 0xB6, 0xB7, 0xB8, 0xB9, 0xBA, 0xBD, 0xC3, 0xC5, 0xC6, 0xD7, 0xF0}
+CODEC_OF = {"WinAnsiEncoding": ("cp1252", range(32, 256)), "MacRomanEncoding": ("mac_roman", range(32, 256)),
+            "PDFDocEncoding": ("latin-1", list(range(32, 127)) + [c for c in range(0xA1, 0x100) if c != 0xAD]),
+            "StandardEncoding": ("ascii", range(32, 127))}
+ACCENTS = {"acute": "\u0301", "grave": "\u0300", "circumflex": "\u0302", "dieresis": "\u0308", "tilde": "\u0303",
+           "ring": "\u030a", "caron": "\u030c", "cedilla": "\u0327", "macron": "\u0304", "breve": "\u0306",
+           "ogonek": "\u0328", "dotaccent": "\u0307", "hungarumlaut": "\u030b",
+           "commaaccent": "\u0327"}   # AGL names the Unicode 1.x "cedilla" letters "commaaccent"
+ACCENT_EXCEPTIONS = {"dmacron": "\u0111", "ldotaccent": "\u0140", "Ldotaccent": "\u013f",   # AGL: d with stroke, L with middle dot
+                     "Scommaaccent": "\u0218", "scommaaccent": "\u0219"}                  # the one real comma-below pair
+GREEK = ["Alpha", "Beta", "Gamma", "Epsilon", "Zeta", "Eta", "Theta", "Iota", "Kappa", "Nu", "Xi", "Omicron", "Pi",
+         "Rho", "Sigma", "Tau", "Upsilon", "Phi", "Chi", "Psi"]   # Delta/Omega/mu are the symbol code points in AGL
+
+
+def independent_checks(only: Optional[Tuple[str, str]] = None):
+    """Yields (table, key, expected, got) for every entry checked; expected comes from Python's codecs /
+    unicodedata / the AGL rules, never from pdfminer's tables."""
+    import string
+    import unicodedata
+    from pdfminer.encodingdb import EncodingDB, name2unicode
+    d = data()
+    for enc, (codec, codes) in CODEC_OF.items():
+        col = ENC_COL[enc]
+        table: Dict[int, str] = {}
+        for row in d["enc"]:
+            if row[col]:
+                table[row[col]] = d["gl"].get(row[0])      # through the glyph list only (not via name2unicode)
+        for c in codes:
+            key = "%s/%d" % (enc, c)
+            if only and only != ("codec", key):
+                continue
+            try:
+                e = bytes([c]).decode(codec)
+            except UnicodeDecodeError:
+                e = None
+            if e is not None and not e.isprintable() and e != "\xa0" and e != "\xad":
+                e = None
+            e = CODEC_EXCEPTIONS.get((enc, c), e)
+            if enc == "MacRomanEncoding" and c in MAC_ABSENT:
+                e = None
+            g = table.get(c)
+            yield ("codec", key, e, g)
+            # the table the implementation actually serves must be the same thing
+            yield ("codec-impl", key, g, EncodingDB.get_encoding(enc).get(c))
+    gl = d["gl"]
+    for L in string.ascii_letters + string.digits:
+        nm = L if L.isalpha() else ["zero", "one", "two", "three", "four", "five", "six", "seven", "eight", "nine"][int(L)]
+        if not only or only == ("unicodedata", nm):
+            yield ("unicodedata", nm, L, gl.get(nm))
+        if L.isalpha():
+            for a, cm in ACCENTS.items():
+                nm = L + a
+                if nm in gl and (not only or only == ("unicodedata", nm)):
+                    exp = ACCENT_EXCEPTIONS.get(nm, unicodedata.normalize("NFC", L + cm))
+                    yield ("unicodedata", nm, exp, gl[nm])
+    for gname in GREEK:
+        for nm, un in ((gname, "GREEK CAPITAL LETTER " + gname.upper()), (gname.lower(), "GREEK SMALL LETTER " + gname.upper())):
+            if nm in gl and (not only or only == ("unicodedata", nm)):
+                yield ("unicodedata", nm, unicodedata.lookup(un), gl[nm])
+    # self-consistency of list and uniXXXX rule: spelling the value of an entry as uniXXXX.. gives the value back,
+    # values are 1-4 scalar values, names are non-empty printable ASCII without '.', '_' or '/'
+    for nm, v in gl.items():
+        if only and only != ("selfconsistency", nm):
+            continue
+        ok_shape = (1 <= len(v) <= 4 and all(_scalar(ord(ch)) for ch in v) and nm != "" and
+                    all(33 <= ord(ch) < 127 and ch not in "._/" for ch in nm))
+        yield ("selfconsistency", nm, True, ok_shape)
+        if all(ord(ch) <= 0xFFFF for ch in v):
+            uni = "uni" + "".join("%04X" % ord(ch) for ch in v)
+            try:
+                back = name2unicode(uni)
+            except Exception as e:  # noqa: BLE001
+                back = "EXC:" + type(e).__name__
+            yield ("selfconsistency", nm, v, back)
+
+
+def run_independent(ctx: C.Ctx, only: Optional[Tuple[str, str]] = None) -> None:
+    for table, key, exp, got in independent_checks(only):
+        ctx.case(("indep", table, key, repr(exp)), True, branch="independent:" + table)
+        if exp != got:
+            cfail(ctx, C.Failure("font data table differs from an independent source (platform codec / unicodedata / "
+                               "AGL rule)", {"op": "table-indep", "table": table, "key": key},
+                               None if exp is None else (cps(exp) if isinstance(exp, str) else exp),
+                               None if got is None else (cps(got) if isinstance(got, str) else got),
+                               {"op": "table-indep", "table": table}))
+
+
 def run_tables(ctx: C.Ctx) -> None:
     """The regenerated Lean tables equal the Python objects (data tie)."""
     if ctx.driver is None:
@@ -1396,7 +1867,7 @@ def run_tables(ctx: C.Ctx) -> None:
     d = data()
     lines = ["tab.glyphcount", "tab.enccount", "tab.facts"]
     exp = [str(len(d["gl"])), str(len(d["enc"])),
-           "glyph-values-nonempty=true rows-resolve=true rows-judged=true empty-name-absent=true"]
+           "glyph-values-nonempty=true rows-resolve=true rows-judged=true"]
     for k in sorted(d["fm"]):
         lines.append("tab.metrics " + name_arg(("s", k)))
         exp.append(" ".join("%x:%d" % (ord(ch), w) for ch, w in sorted(d["fm"][k].items())) or "-")
@@ -1425,6 +1896,14 @@ def replay(ctx: C.Ctx, doc, from_corpus: bool = False) -> None:
     inp = doc.get("input", {})
     label = "corpus" if from_corpus else "replay"
     op = inp.get("op")
+    for pre in inp.get("prelude", []):        # state carried across calls: what the implementation was asked before
+        try:
+            if pre.get("op") == "enc":
+                impl_get_encoding(pre["base"], diff_from_json(pre["differences"]))
+            elif pre.get("op") == "font":
+                impl_fonts([pre["font"]])
+        except Exception:  # noqa: BLE001
+            pass
     if op == "name":
         a = inp["name"]
         tok = ("s", bytes.fromhex(a[1:] if a[1:] != "-" else "").decode("utf-8")) if a[0] == "s" \
@@ -1433,16 +1912,20 @@ def replay(ctx: C.Ctx, doc, from_corpus: bool = False) -> None:
     elif op == "enc":
         check_encodings(ctx, [(inp["base"], diff_from_json(inp["differences"]), [label])])
     elif op == "font":
-        check_fonts(ctx, [(inp["font"], [label])])
+        check_fonts(ctx, [(f2, [label + ":context"]) for f2 in inp.get("doc", [])] + [(inp["font"], [label])])
     elif op == "table":
         run_refdata(ctx, (inp["table"], inp["key"]))
+    elif op == "table-indep":
+        run_independent(ctx, (inp["table"].replace("codec-impl", "codec"), inp["key"]))
 
 
 def run(ctx: C.Ctx) -> None:
     run_corpus(ctx)
+    run_independent(ctx)
     run_refdata(ctx)
     run_tables(ctx)
     run_utf16(ctx)
+    run_t1puts(ctx)
     run_names(ctx)
     run_encodings(ctx)
     run_fonts(ctx)
